@@ -33,7 +33,8 @@ RULE = ("scripts generated from rule tables over the addresses and subjects of t
         "return; distinct = distinct input line; non-trivial = something stored or some 5xx reply")
 TRUSTED = ["gopher-lua executes the generated script as the generator intends (outcome class by construction)",
            "net.ParseIP verdicts and enmime header facts are oracles supplied by the driver from the real functions"]
-ASSUMPTIONS = ["hooks do not answer Deny with the codes 250 or 354 (a hook lying about acceptance is outside the property)"]
+ASSUMPTIONS = ["hooks do not answer Deny with the codes 250 or 354 (a hook lying about acceptance is outside the property)",
+               "the text of a hook's deny holds no CR or LF (the code writes it verbatim: a text with line breaks injects reply lines; reply_ok accepts any integer code of a Deny)"]
 NOT_PROVED = ["the deny text reaches the client verbatim (differential only: reply lines are code x flag in the model)",
               "listener purity: a listener's writes to its argument are invisible to the session and to later listeners (differential only, fixes 0021/0023)"]
 
